@@ -101,6 +101,9 @@ func cmdFunc(args []string) {
 	} else {
 		os.MkdirAll(dir, 0o755)
 	}
+	HintSolver = func(obls []*Obligation) {
+		(&Solver{Dir: dir, Timeout: *timeout, Par: runtime.NumCPU(), Prelude: e.Prelude(), QFPrelude: e.QFPrelude(), Eng: e}).SolveAll(obls)
+	}
 	for _, key := range fs.Args() {
 		if e.Contracts.Funcs[key] == nil {
 			fmt.Printf("no contract for %s\n", key)
@@ -109,7 +112,7 @@ func cmdFunc(args []string) {
 		res := e.VerifyFunc(key)
 		sv := &Solver{Dir: dir, Timeout: *timeout, Par: runtime.NumCPU(), Prelude: e.Prelude(), QFPrelude: e.QFPrelude(), Eng: e}
 		sv.SolveAll(res.Obligations)
-		fmt.Printf("== %s: %d obligations, %d unsupported\n", key, len(res.Obligations), len(res.Unsupported))
+		fmt.Printf("== %s: %d obligations, %d unsupported, hints %d (failed %d)\n", key, len(res.Obligations), len(res.Unsupported), res.HintsTried, res.HintsFailed)
 		for _, u := range res.Unsupported {
 			fmt.Printf("   UNSUPPORTED %s\n", u)
 		}
